@@ -285,6 +285,8 @@ class Cond:
         gk = tkey(g)
         if isinstance(a, Cond): a = _assume(a, gk, True)
         if isinstance(b, Cond): b = _assume(b, gk, False)
+        if isinstance(a, Opq) and a.key() == gk: a = True          # g ? g : b  -- the test itself as the value of its own branch
+        if isinstance(b, Opq) and b.key() == gk: b = False
         if tkey(a) == tkey(b): return a
         o = object.__new__(cls); o.g = g; o.a = a; o.b = b
         return o
@@ -810,6 +812,8 @@ class Evaluator:
         if isinstance(v, BoolSel): return s.mkbool(v.op, [v.g, s.truth(v.rest)])
         if isinstance(v, Opq) and (s.facts or s.assumed): return s.refold(v)
         if isinstance(v, Cond) and (s.facts or s.assumed): return s.mkcond(v.g, s.truth(v.a), s.truth(v.b))
+        if isinstance(v, Cond) and not isinstance(v, BoolSel) and all(isinstance(l_, bool) or _is_boolterm(l_) for _, l_ in paths_of(v)):
+            return s.mkcond(v.g, s.truth(v.a), s.truth(v.b))          # a decision tree over truth values, as the connective it spells
         if v is None: return False
         if isinstance(v, (list, tuple, dict, str)): return len(v) > 0
         if isinstance(v, Poly):
@@ -882,11 +886,15 @@ class Evaluator:
         if (s._enum_member(a) and a.f.get('_enum_mixin_') == 'int') and isinstance(op, (ast.Lt, ast.LtE, ast.Gt, ast.GtE)): a = a.f['_value_']
         if (s._enum_member(b) and b.f.get('_enum_mixin_') == 'int') and isinstance(op, (ast.Lt, ast.LtE, ast.Gt, ast.GtE)): b = b.f['_value_']
         if isinstance(op, (ast.In, ast.NotIn)):
+            if isinstance(b, Opq) and len(b.k) == 2 and b.k[0] in ('list', 'tuple') and not isinstance(b.k[1], Comp): b = b.k[1]       # membership in a plain copy
             r = None
             if isinstance(b, (list, tuple)) and not isinstance(a, (Poly, Opq, Cond)) or (isinstance(b, (list, tuple)) and all(not isinstance(x, (Opq, Cond)) for x in b) and isinstance(a, (str, Poly)) and (isinstance(a, str) or a.is_const())):
                 r = any(same(a, x) for x in b)
             elif isinstance(b, dict) and (isinstance(a, str) or (isinstance(a, Poly) and a.is_const())) and _const_keyed(b):
                 r = any(same(a, x.v if isinstance(x, _HK) else x) for x in b)
+            elif isinstance(b, dict) and isinstance(a, tuple) and all(isinstance(x_, str) for x_ in a) \
+                    and all(isinstance(k_.v if isinstance(k_, _HK) else k_, str) or (isinstance(k_.v if isinstance(k_, _HK) else k_, tuple) and all(isinstance(y_, str) for y_ in (k_.v if isinstance(k_, _HK) else k_))) for k_ in b):
+                r = any((k_.v if isinstance(k_, _HK) else k_) == a for k_ in b)          # a tuple of literal strings looked up in a table keyed by such tuples
             if r is None and isinstance(b, (list, tuple)) and 0 < len(b) <= 8 and all(_is_concrete(x) or isinstance(x, Poly) for x in b) and not isinstance(a, (list, tuple, dict)):
                 r = s.mkbool('or', [s.compare(ast.Eq(), a, x) for x in b])
             if r is None: r = Opq('in', a, b)
@@ -967,6 +975,12 @@ class Evaluator:
         if g is False: return b
         if a is True and b is False: return g
         if a is False and b is True: return s.negate(g)
+        # a conditional between truth values is the connective:  g ? True : b == g or b,  g ? a : True == not g or a,  g ? False : b == not g and b,  g ? a : False == g and a
+        if isinstance(g, Opq) and not (isinstance(g, Opq) and g.k and g.k[0] in ('and', 'or')):
+            if a is True and _is_boolterm(b): return s.mkbool('or', [g, b])
+            if b is True and _is_boolterm(a): return s.mkbool('or', [s.negate(g), a])
+            if a is False and _is_boolterm(b): return s.mkbool('and', [s.negate(g), b])
+            if b is False and _is_boolterm(a): return s.mkbool('and', [g, a])
         if a is RAISE and b is RAISE: return RAISE
         if a is RAISE:
             s.learn(g, False); return b
@@ -1483,6 +1497,8 @@ class Evaluator:
             at_ = k.as_atom()
             if isinstance(at_, tuple) and len(at_) == 3 and at_[0] == 'idx' and at_[2] == tkey(v):
                 return s.elem_of(v, at_[1])          # xs[i] at the position i that enumerates xs is the element itself
+            if isinstance(at_, tuple) and len(at_) == 3 and at_[0] == 'idx' and isinstance(v, Opq) and len(v.k) == 2 and v.k[0] in ('list', 'tuple') and at_[2] == tkey(v.k[1]):
+                return s.elem_of(v.k[1], at_[1])     # ... also through a plain copy of xs
         if _is_boolterm(k) and isinstance(v, (tuple, list, dict)):
             # t[flag] with a truth value as index / key: the entry at 1 (True) when it holds, the entry at 0 (False) otherwise
             return s.mkcond(k, s.getitem(v, True if isinstance(v, dict) and True in v else Poly.const(1)), s.getitem(v, False if isinstance(v, dict) and False in v else Poly.const(0)))
@@ -2368,6 +2384,48 @@ class Evaluator:
                 env[p] = Opq('?', 'missing-arg ' + p)
         return env
 
+    def _counter_while(s, st, env, mod, depth):
+        """i = 0; while i < len(xs): BODY; i += 1     ==     for i, _ in enumerate(xs): BODY       (the counter is not written elsewhere in BODY, BODY has no
+        continue / break; xs[i] inside BODY is then the element itself).  The rewritten statements, or None"""
+        cached = getattr(st, '_cw_cache', None)
+        if cached is not None and cached[0] == id(env): return cached[1]
+        out = None
+        try:
+            t = st.test
+            if isinstance(t, ast.Compare) and len(t.ops) == 1 and not st.orelse and st.body:
+                l, r, op = t.left, t.comparators[0], t.ops[0]
+                if isinstance(op, ast.Gt): l, r, op = r, l, ast.Lt()
+                if isinstance(op, (ast.Lt, ast.NotEq)) and isinstance(l, ast.Name):
+                    i = l.id
+                    last = st.body[-1]
+                    inc = (isinstance(last, ast.AugAssign) and isinstance(last.op, ast.Add) and isinstance(last.target, ast.Name) and last.target.id == i
+                           and isinstance(last.value, ast.Constant) and last.value.value == 1) or \
+                          (isinstance(last, ast.Assign) and len(last.targets) == 1 and isinstance(last.targets[0], ast.Name) and last.targets[0].id == i
+                           and isinstance(last.value, ast.BinOp) and isinstance(last.value.op, ast.Add)
+                           and {ast.unparse(last.value.left), ast.unparse(last.value.right)} == {i, '1'})
+                    body = st.body[:-1]
+                    stores_i = any(isinstance(n, ast.Name) and n.id == i and isinstance(n.ctx, ast.Store) for b in body for n in ast.walk(b))
+                    jumps = any(isinstance(n, (ast.Break, ast.Continue)) for b in body for n in ast.walk(b))
+                    cur = s.lookup(i, env, mod) if i in _chain_names(env) else None
+                    if inc and not stores_i and not jumps and isinstance(cur, Poly) and cur.is_zero():
+                        nv = s.ev(r, env, mod, depth)
+                        at = nv.as_atom() if isinstance(nv, Poly) else None
+                        if isinstance(at, tuple) and len(at) == 2 and at[0] == 'len':
+                            xs = term_from_key(at[1])
+                            # the sequence must not be resized in the body
+                            grows = any(isinstance(n, ast.Call) and isinstance(n.func, ast.Attribute) and n.func.attr in ('append', 'pop', 'remove', 'insert', 'extend', 'clear')
+                                        and same(s.ev(n.func.value, env, mod, depth), xs) for b in body for n in ast.walk(b))
+                            if xs is not None and not grows:
+                                loop = ast.For(target=ast.Tuple(elts=[ast.Name(id=i, ctx=ast.Store()), ast.Name(id='__cw_item', ctx=ast.Store())], ctx=ast.Store()),
+                                               iter=ast.Call(func=ast.Name(id='enumerate', ctx=ast.Load()), args=[_TermNode(xs)], keywords=[]),
+                                               body=list(body) or [ast.Pass()], orelse=[])
+                                after = ast.Assign(targets=[ast.Name(id=i, ctx=ast.Store())], value=_TermNode(nv))
+                                out = [ast.fix_missing_locations(ast.copy_location(loop, st)), ast.fix_missing_locations(ast.copy_location(after, st))]
+        except Exception:
+            out = None
+        st._cw_cache = (id(env), out)
+        return out
+
     def exc_name_of(s, st, env, mod, depth):
         """name of the exception class a raise statement raises: the class its expression EVALUATES to (raise error(msg) with `error` a variable
         holding a class), else the name written"""
@@ -2375,10 +2433,14 @@ class Evaluator:
         e = st.exc
         if e is None: return name
         f_ = e.func if isinstance(e, ast.Call) else e
-        if isinstance(f_, ast.Name):
-            try: v = s.lookup(f_.id, env, mod)
+        if isinstance(f_, (ast.Name, ast.Attribute)):
+            try: v = s.lookup(f_.id, env, mod) if isinstance(f_, ast.Name) else s.ev(f_, env, mod, depth)
             except Exception: v = None
             if isinstance(v, Ref) and v.kind in ('class', 'ext', 'builtin') and v.name: return v.name.split('.')[-1]
+            # raise error  with `error` holding an exception INSTANCE built elsewhere
+            if not isinstance(e, ast.Call):
+                if isinstance(v, Rec) and v.cls: return v.cls
+                if isinstance(v, Opq) and len(v.k) >= 2 and v.k[0] == 'exc' and isinstance(v.k[1], str): return v.k[1]
         return name
 
     def block(s, stmts, env, mod, depth):
@@ -2499,6 +2561,14 @@ class Evaluator:
                     if armed: s._try_depth -= 1; armed = False
                     for h in st.handlers:
                         names = [] if h.type is None else [ast.unparse(x).split('.')[-1] for x in (h.type.elts if isinstance(h.type, ast.Tuple) else [h.type])]
+                        if h.type is not None and not isinstance(h.type, ast.Tuple) and isinstance(h.type, ast.Name):
+                            # except NAME: where NAME is a module-level tuple of exception classes (or an alias of one class)
+                            try: hv_ = s.ev(h.type, env, mod, depth)
+                            except Exception: hv_ = None
+                            hv_ = list(hv_) if isinstance(hv_, (tuple, list)) else [hv_]
+                            extra_ = [x_.name.split('.')[-1] for x_ in hv_ if isinstance(x_, Ref) and x_.name]
+                            extra_ += [x_.k[1] for x_ in hv_ if isinstance(x_, Opq) and len(x_.k) >= 2 and x_.k[0] == 'exc' and isinstance(x_.k[1], str)]
+                            names = list(dict.fromkeys(names + extra_))
                         if h.type is None or ex.kind in names or any(pn in names for pn in EXC_PARENTS.get(ex.kind, ('Exception', 'BaseException'))):
                             if h.name: env[h.name] = Opq('exc', ex.kind)
                             return s.block(h.body + st.finalbody + rest, env, mod, depth)
@@ -2516,6 +2586,8 @@ class Evaluator:
                 for it in st.items:
                     if it.optional_vars is not None: s.assign(it.optional_vars, s.ev(it.context_expr, env, mod, depth), env, mod, depth)
                 return s.block(st.body + rest, env, mod, depth)
+            elif isinstance(st, ast.While) and s._counter_while(st, env, mod, depth) is not None:
+                return s.block(s._counter_while(st, env, mod, depth) + rest, env, mod, depth)
             elif isinstance(st, (ast.For, ast.While)):
                 lr = s.loop(st, env, mod, depth)
                 if lr is RAISE: return RAISE
@@ -2817,6 +2889,11 @@ class Evaluator:
                     g = s.truth(s.ev(stx.test, env2, mod, depth))
                     if not stx.orelse and len(stx.body) == 1 and isinstance(stx.body[0], ast.Continue):
                         gens[level][1].append(s.negate(g)); s.refine_env(env2, g, False); continue
+                    if stx.orelse and all(isinstance(b_, ast.Pass) for b_ in stx.body):
+                        # if c: pass  else: body     ==     if not c: body
+                        inv_ = ast.copy_location(ast.If(test=ast.UnaryOp(op=ast.Not(), operand=stx.test), body=stx.orelse, orelse=[]), stx)
+                        walk([ast.fix_missing_locations(inv_)] + [x_ for x_ in stmts[stmts.index(stx) + 1:]], env2, level)
+                        return
                     if len(stx.orelse) == 1 and isinstance(stx.orelse[0], ast.Continue):
                         # if c: body  else: continue   ==   if not c: continue; body     (what follows the if runs only when c held)
                         gens[level][1].append(g); s.refine_env(env2, g, True)
@@ -2876,6 +2953,12 @@ class Evaluator:
                     gs.append((base_, fl_ + [f for f in fs if f is not True]))
                 else:
                     gs.append((g_it, [f for f in fs if f is not True]))
+            if kind in ('list', 'set') and gs and isinstance(gs[0][0], Opq) and len(gs[0][0].k) == 2 and gs[0][0].k[0] == 'enumerate':
+                # the position is not used by what is collected: the loop visits the items of xs themselves
+                ikey_ = repr(('idx', 0, tkey(gs[0][0].k[1])))
+                if ikey_ not in repr(tkey(elt)) and not any(ikey_ in repr(tkey(f_)) for _, fs_ in gs for f_ in fs_) and not any(ikey_ in repr(tkey(g_)) for g_, _ in gs[1:]):
+                    b2_, f2_ = _fuse_iter2(_fuse_iter(gs[0][0].k[1]))
+                    gs[0] = (b2_, f2_ + list(gs[0][1]))
             if any(f is False for _, fs in gs for f in fs): val = {'list': [], 'set': Opq('set'), 'dict': {}}[kind]
             else: val = Comp(elt, gs, kind)
             if kind == 'list' and s._empty_acc(place[2]) != 'list': val = s._binop(ast.Add(), place[2], val)      # appended to what the list already held
